@@ -8,7 +8,11 @@ import sys
 
 ROOT = os.path.dirname(os.path.dirname(os.path.abspath(__file__)))
 sys.path.insert(0, os.path.join(ROOT, "tools"))
-from props_table import PROPS  # noqa: E402
+from props_table import PROPS as ALL_PROPS  # noqa: E402
+
+# only properties whose check the lead has run green on the unchanged tree are claimed
+CLAIMED = json.load(open(os.path.join(ROOT, "tools", "claimed.json")))
+PROPS = {k: v for k, v in ALL_PROPS.items() if k in CLAIMED}
 
 all_ids = [json.loads(l)["id"] for l in open(os.path.join(ROOT, "properties.jsonl"))]
 na = json.load(open(os.path.join(ROOT, "tools", "not_applicable.json")))
